@@ -22,7 +22,8 @@
 //!       query     : () | (raw query string)
 //!       observation : ((params map read at level 0) .. (.. at the leaf))
 //!                     (use_query_map  use_location().query  typed-params  typed-query  query_signal)
-//!   (7 path_and_query)      the request shape leptos_actix builds: "http://leptos" + path [+ "?" + query]
+//!   (7 path_and_query [1])  the request as the integrations hand it over: leptos_actix
+//!                           "http://leptos" + path [+ "?" + query]; [1] leptos_axum "http://leptos.dev" + path_and_query
 //!   (8 steps)               a map driven through insert / replace / remove, then written and parsed back
 //!       step : (0 k v) insert | (1 k v) replace | (2 k) remove
 //!       observation : (results-of-the-removes map query-string map-parsed-back)
@@ -108,9 +109,15 @@ pub fn run(c: &Sexp) -> Sexp {
                 _ => parsed(req.parse()),
             }
         }
-        7 => parsed(
-            RequestUrl::new(&format!("http://leptos{}", text(arg))).parse(),
-        ),
+        7 => {
+            // leptos_actix: "http://leptos" + path [+ "?" + query]; leptos_axum: "http://leptos.dev" + path_and_query
+            let prefix = if c.at(2).num() == 1 {
+                "http://leptos.dev"
+            } else {
+                "http://leptos"
+            };
+            parsed(RequestUrl::new(&format!("{prefix}{}", text(arg))).parse())
+        }
         3 => {
             // build the map through the public API, check it is the intended one,
             // write it as a query string and parse that back
